@@ -49,6 +49,7 @@ class Ctx:
         self.assumptions = []
         self.level = "model_checking"
         self.tlc_runs = []
+        self.undecided = []
         self.known = [k for k in load_known() if k.get("property") == pid and k.get("status") == "known"]
         os.makedirs(os.path.join(REPLAYS, pid), exist_ok=True)
 
@@ -56,15 +57,27 @@ class Ctx:
 
     # ---------------------------------------------------------------- harness
     def build(self, race=False):
-        os.makedirs(BUILD, exist_ok=True)
-        out = os.path.join(BUILD, "drv-race" if race else "drv")
+        """Builds the harness against /repo's current working tree (hooks on). For testing the
+        machinery against mutated scratch copies, VERIF_REPO=<dir> builds against that tree instead."""
+        repo = os.environ.get("VERIF_REPO", "/repo")
+        if repo == "/repo":
+            os.makedirs(BUILD, exist_ok=True)
+            hdir, outdir = HARNESS, BUILD
+        else:
+            hdir = os.path.join(self.scratch, "harness")
+            if not os.path.isdir(hdir):
+                shutil.copytree(HARNESS, hdir)
+                gm = open(os.path.join(hdir, "go.mod")).read().replace("=> /repo", "=> " + repo)
+                open(os.path.join(hdir, "go.mod"), "w").write(gm)
+            outdir = self.scratch
+        out = os.path.join(outdir, "drv-race" if race else "drv")
         cmd = ["go", "build", "-tags", "verif"] + (["-race"] if race else []) + ["-o", out, "./cmd/drv"]
-        # go.sum of the harness must cover what /repo needs
+        # go.sum of the harness must cover what the repository needs
         try:
-            shutil.copy("/repo/go.sum", os.path.join(HARNESS, "go.sum"))
+            shutil.copy(os.path.join(repo, "go.sum"), os.path.join(hdir, "go.sum"))
         except OSError:
             pass
-        p = subprocess.run(cmd, cwd=HARNESS, env=go_env(), stdout=subprocess.PIPE, stderr=subprocess.STDOUT, text=True)
+        p = subprocess.run(cmd, cwd=hdir, env=go_env(), stdout=subprocess.PIPE, stderr=subprocess.STDOUT, text=True)
         if p.returncode != 0:
             raise Machinery("harness build failed:\n" + p.stdout[-3000:])
         return out
@@ -109,7 +122,7 @@ class Ctx:
             self.transitions += gen
         return res
 
-    def validate_batch(self, trace_path, summary, atomic=True, exact=True, timeout=1200):
+    def validate_batch(self, trace_path, summary, atomic=True, exact=True, timeout=600):
         """Validates a batch file of traces against AbsTxn, continuing past rejected traces.
         Returns (accepted_count, rejections) with rejections = list of dict(index, line, event)."""
         offsets = summary["offsets"]
@@ -129,8 +142,38 @@ class Ctx:
             self.transitions += r["states"]
             self.tlc_runs.append(dict(module="TraceAbsTxn", rc=r["rc"], generated=r["states"], distinct=r["distinct"],
                                       wall=round(r["wall"], 1)))
+            if r["rc"] == 124:
+                # the search did not finish: judge the traces one by one; a single trace that still
+                # does not finish is undecided (never a verdict)
+                if lines is None:
+                    lines = open(trace_path).read().splitlines()
+                for i in range(start, n):
+                    end = offsets[i + 1] - 1 if i + 1 < n else len(lines)
+                    fd, one = tempfile.mkstemp(prefix="one-%d-" % i, suffix=".ndjson", dir=self.scratch)
+                    os.close(fd)
+                    with open(one, "w") as fh:
+                        fh.write("\n".join(lines[offsets[i] - 1:end]) + "\n")
+                    r1 = tlc.validate_abstxn(one, summary["workers"], summary["keys"], atomic=atomic, exact=exact,
+                                             timeout=180)
+                    self.states += r1["distinct"]
+                    self.transitions += r1["states"]
+                    if r1["rc"] == 124:
+                        self.undecided.append("trace %d of %s: linearization search did not finish" % (i, trace_path))
+                    elif r1["machinery_error"]:
+                        raise Machinery("trace validation failed to run:\n" + r1["out"][-2000:])
+                    elif r1["accepted"]:
+                        accepted += 1
+                    else:
+                        hw = r1["highwater"]
+                        ev = json.loads(lines[offsets[i] - 1 + hw - 1]) if hw > 0 else {}
+                        rejections.append(dict(index=i, line=offsets[i] - 1 + hw, event=ev, rel=hw))
+                return accepted, rejections
             if r["machinery_error"]:
-                raise Machinery("trace validation failed to run:\n" + r["out"][-2000:])
+                lp = os.path.join(REPLAYS, self.id, "machinery-tlc.log")
+                open(lp, "w").write(r["out"])
+                shutil.copy(path, os.path.join(REPLAYS, self.id, "machinery-trace.ndjson"))
+                errs = [ln for ln in r["out"].splitlines() if ln.startswith("Error:") or "Attempted" in ln]
+                raise Machinery("trace validation failed to run (log: %s): %s" % (lp, " | ".join(errs)[:1500]))
             if r["accepted"]:
                 accepted += n - start
                 break
@@ -145,7 +188,8 @@ class Ctx:
             if start >= n:
                 break
             base_line = offsets[start] - 1
-            path = os.path.join(self.scratch, "rest-%d.ndjson" % start)
+            fd, path = tempfile.mkstemp(prefix="rest-%d-" % start, suffix=".ndjson", dir=self.scratch)
+            os.close(fd)
             with open(path, "w") as fh:
                 fh.write("\n".join(lines[base_line:]) + "\n")
         return accepted, rejections
@@ -197,6 +241,7 @@ class Ctx:
         cov["tlc_runs"] = self.tlc_runs
         cov["known_findings_hit"] = self.known_hits
         cov["drift"] = self.drift
+        cov["undecided"] = self.undecided
         ev = dict(property_id=self.id, tier=self.tier, seed=self.seed, level=self.level, coverage=cov,
                   assumptions=self.assumptions, wall_s=round(wall, 1), violations=len(self.violations))
         os.makedirs(EVIDENCE, exist_ok=True)
@@ -205,7 +250,13 @@ class Ctx:
         print("property=%s tier=%s seed=%d states=%d transitions=%d traces=%d evaluations=%s violations=%d wall=%.0fs" % (
             self.id, self.tier, self.seed, cov["states"], cov["transitions"], cov["traces_validated_against_impl"],
             cov.get("evaluations"), len(self.violations), wall))
-        return 1 if self.violations else 0
+        if self.violations:
+            return 1
+        if self.undecided:
+            for u in self.undecided:
+                print("INCONCLUSIVE property=%s %s" % (self.id, u))
+            return 2
+        return 0
 
     def cleanup(self):
         if not self.keep:
